@@ -10,9 +10,13 @@ EXPLANATION = ("Contracts on the real primitive codecs are discharged by pyvc (A
 def units(ctx):
     us = contract_units("C01", MODULES, ctx,
                         weight={"kmip.core.primitives.ByteString.read": 50})
-    from vf import ttlvunits, bounded
+    from vf import ttlvunits, bounded, facts
+    if facts.mutable_defaults_present():
+        # the native parametric runs below share state through such a default (and may not end):
+        # the fact unit reports the violation, the native units are not built
+        return us + facts.units(["wrappers_truthy", "no_mutable_defaults"], ctx)
     us += ttlvunits.make_units(ctx, "C01")
     us += bounded.units(["biginteger", "bit_length"], ctx)
     from vf import facts
-    us += facts.units(["wrappers_truthy"], ctx)
+    us += facts.units(["wrappers_truthy", "no_mutable_defaults"], ctx)
     return us
